@@ -105,4 +105,19 @@ L2b(Pprev, Pnext, step) ==
             /\ ~(step.in_act[1] = "Finished" /\ step.in_act[2] = a)
             /\ ~\E j \in 1..Len(Pnext.flows) : Running(Pnext.flows[j]) /\ a \in Range(Pnext.flows[j].actions))
            => \E k \in 1..Len(step.out_acts) : step.out_acts[k] = <<"Stop", a>>
+
+(* L2c: an action shared by several flows is not stopped while a sharer that did nothing in this step is
+   still running: if a flow that listed the action ended in this step and another running flow lists it
+   before and after the step with unchanged head positions, no Stop for it may be sent in the step. *)
+HeadsOf(f) == [i \in 1..Len(f.heads) |-> <<f.heads[i].id, f.heads[i].pos, f.heads[i].status>>]
+L2c(Pprev, Pnext, step) ==
+  \A k \in 1..Len(step.out_acts) :
+     step.out_acts[k][1] = "Stop" =>
+       LET a == step.out_acts[k][2] IN
+       ~\E i \in 1..Len(Pprev.flows) : \E j \in 1..Len(Pprev.flows) :
+            LET f == Pprev.flows[i]  g == Pprev.flows[j] IN
+            /\ i # j /\ Running(f) /\ Running(g) /\ a \in Range(f.actions) /\ a \in Range(g.actions)
+            /\ f.uid \in FlowUids(Pnext) /\ Done(Flow(Pnext, f.uid))                       \* f ended in this step
+            /\ g.uid \in FlowUids(Pnext) /\ Running(Flow(Pnext, g.uid))                    \* g keeps running ...
+            /\ a \in Range(Flow(Pnext, g.uid).actions) /\ HeadsOf(Flow(Pnext, g.uid)) = HeadsOf(g)   \* ... untouched
 =============================================================================
